@@ -350,7 +350,13 @@ func runC06(ctx *Ctx) {
 				addMediaRenderCases(mr, ctx.Rep, x.Src, u, replay)
 			},
 			weights: []W{{"para", 35}, {"list", 6}, {"datatable", 8}, {"figure", 10}, {"img", 10}, {"video", 8}, {"quote", 4}, {"divwrap", 5}, {"links", 4}},
-			setup:   func(g *PageGen) { g.RelURLs = true; g.DupAttrs = true },
+			setup: func(g *PageGen) {
+				g.RelURLs = true
+				g.DupAttrs = true
+				if g.R.Chance(30) {
+					g.BaseHref = g.R.Pick("/", "https://cdn.other.example/", "../", "assets/", "//static.example.net/x/", "?v=2")
+				}
+			},
 			oracle: func(ctx *Ctx, x *distilled, replay interface{}) bool {
 				n := oracleC06(ctx.Rep, x, replay)
 				ctx.Rep.histN("retained-relative-urls", n)
